@@ -112,7 +112,9 @@ type verifStateStore struct {
 	lastState *pb.PersistentState
 }
 
-func (st *verifStateStore) ReadPersistentState() (*pb.PersistentState, error) { return nil, verifErrNoSpace }
+func (st *verifStateStore) ReadPersistentState() (*pb.PersistentState, error) {
+	return nil, verifErrNoSpace
+}
 func (st *verifStateStore) WritePersistentState(s *pb.PersistentState) error {
 	st.writes++
 	if st.failures > 0 {
@@ -126,14 +128,14 @@ func (st *verifStateStore) WritePersistentState(s *pb.PersistentState) error {
 }
 
 type verifSyncerRig struct {
-	x        *verifPBL
-	src      *verifSource2
-	store    *verifStateStore
-	clk      *verifClock
-	logger   *verifErrorLogger
-	ps       *PeriodicSyncer
-	syncs    int
-	syncFail int
+	x           *verifPBL
+	src         *verifSource2
+	store       *verifStateStore
+	clk         *verifClock
+	logger      *verifErrorLogger
+	ps          *PeriodicSyncer
+	syncs       int
+	syncFail    int
 	minInterval time.Duration
 }
 
@@ -165,7 +167,8 @@ func verifNewSyncerRig() *verifSyncerRig {
 }
 
 // verifMatchCommitSequence checks that events[from:] is
-//   start (sync-fail)* sync-ok completed [start-final (sync-fail)* sync-ok completed] (getstate write-fail)* getstate write-ok written
+//
+//	start (sync-fail)* sync-ok completed [start-final (sync-fail)* sync-ok completed] (getstate write-fail)* getstate write-ok written
 func verifMatchCommitSequence(ev []string, final bool) bool {
 	i := 0
 	next := func(s string) bool {
@@ -203,4 +206,64 @@ func verifMatchCommitSequence(ev []string, final bool) bool {
 		break
 	}
 	return next("write-ok") && next("written") && i == len(ev)
+}
+
+// verifScenarioProcessBlockPut: one ProcessBlockPut (C07 L2/L3, C02 P5).
+func verifScenarioProcessBlockPut() {
+	r := verifNewSyncerRig()
+	bl := r.x.bl
+	vnd.Assume(!bl.closedForWriting)
+	hasWork := len(bl.epochHashSeeds) > bl.synchronizedEpochs
+	if !hasWork {
+		// idle branch would block forever without a notification: give it one by creating an epoch
+		vnd.Cover("idle-start")
+		if len(bl.blocks) == 0 {
+			return
+		}
+		bl.epochHashSeeds = append(bl.epochHashSeeds, vnd.U64())
+		bl.epochLastAbsoluteBlockIndex = append(bl.epochLastAbsoluteBlockIndex, bl.totalBlocksReleased+len(bl.blocks)-1)
+		bl.blocks[len(bl.blocks)-1].epochCount++
+		bl.blockPutWakeup.unblock()
+	} else {
+		vnd.Cover("busy-start")
+	}
+	last := r.ps.lastSynchronizationTime
+	E0 := len(bl.epochHashSeeds)
+	ctx := verifCtx{done: make(chan struct{})}
+	keep := r.ps.ProcessBlockPut(ctx)
+	vnd.Assert(keep, "ProcessBlockPut asked to stop although no shutdown was requested")
+	vnd.Assert(verifMatchCommitSequence(r.src.events, false), "commit did not follow: sync-start, data sync (retried), sync-completed, state export, state write (retried), state-written")
+	vnd.Assert(r.logger.n == r.syncs-1+r.store.writes-1, "not every failure was logged exactly once")
+	// progress
+	vnd.Assert(bl.synchronizedEpochs >= E0-(E0-len(bl.epochHashSeeds)) && bl.synchronizedEpochs == len(bl.epochHashSeeds), "epochs that existed when the synchronisation started are not all synchronised afterwards")
+	verifPBLInvariant(bl, "after ProcessBlockPut")
+	// L3 minimum epoch interval
+	vnd.Assert(len(r.clk.fired) >= 1, "no interval timer was armed")
+	first := r.clk.fired[0]
+	vnd.Assert(!first.Before(last.Add(r.minInterval)), "a synchronisation started earlier than the minimum epoch interval after the previous one")
+	vnd.Assert(r.ps.lastSynchronizationTime.Equal(first), "time of the last synchronisation not updated from the timer")
+	vnd.Observe("l2", uint64(r.syncs), uint64(r.store.writes))
+}
+
+// verifScenarioProcessBlockRelease: one ProcessBlockRelease (C07 L4, C04 R2).
+func verifScenarioProcessBlockRelease() {
+	r := verifNewSyncerRig()
+	bl := r.x.bl
+	if len(bl.blocksToRelease) == 0 {
+		vnd.Cover("nothing-to-release")
+		return
+	}
+	vnd.Assume(bl.blocksReleasing == 0)
+	pending := len(bl.blocksToRelease)
+	r.ps.ProcessBlockRelease()
+	vnd.Cover("released")
+	for _, d := range r.clk.timers {
+		vnd.Assert(d == time.Second, "block release waited on a timer other than the error-retry timer")
+	}
+	vnd.Assert(len(r.clk.timers) == r.store.writes-1, "block release armed a timer without a preceding failure")
+	for i := 0; i < pending; i++ {
+		vnd.Assert(r.x.pend[i].releases == 1, "a block awaiting release was not released after the state write")
+	}
+	vnd.Assert(len(bl.blocksToRelease) == 0 && bl.blockReleaseWakeup.isBlocking, "release wake-up not disarmed although nothing awaits release")
+	verifPBLInvariant(bl, "after ProcessBlockRelease")
 }
